@@ -46,6 +46,10 @@ pub enum Op {
     OpenWrongPw(usize),
     /// this handle's own reader fails its k-th I/O call from now (once)
     FailNext(u64),
+    /// file_names(), sorted
+    Names,
+    /// extract() into a fresh scratch directory of this handle's own; the observation is the result and what was created
+    Extract,
 }
 
 /// Per-handle reader: an in-memory cursor whose next k-th I/O call can be made to fail once. Cloning it (which is what
@@ -186,6 +190,43 @@ impl Handle {
                 self.file = None;
                 "close".into()
             }
+            Op::Names => {
+                let ar: &Ar = unsafe { &*self.ar };
+                let mut v: Vec<&str> = ar.file_names().collect();
+                v.sort();
+                format!("file_names -> {v:?}")
+            }
+            Op::Extract => {
+                self.file = None;
+                // SAFETY: as for the opens above
+                let ar: &'static mut Ar = unsafe { &mut *self.ar };
+                static NEXT: std::sync::atomic::AtomicU64 = std::sync::atomic::AtomicU64::new(0);
+                let base = if std::path::Path::new("/dev/shm").is_dir() { std::path::PathBuf::from("/dev/shm") } else { std::env::temp_dir() };
+                let dir = base.join(format!("zipmc-c20-{}-{}", std::process::id(), NEXT.fetch_add(1, std::sync::atomic::Ordering::Relaxed)));
+                let _ = std::fs::remove_dir_all(&dir);
+                let r = std::fs::create_dir_all(&dir).map_err(|e| format!("scratch: {e}")).and_then(|_| ar.extract(&dir).map_err(|e| e.to_string()));
+                let mut listing = vec![];
+                let mut stack = vec![dir.clone()];
+                while let Some(d) = stack.pop() {
+                    if let Ok(rd) = std::fs::read_dir(&d) {
+                        for e in rd.flatten() {
+                            let p = e.path();
+                            let rel = p.strip_prefix(&dir).unwrap_or(&p).to_string_lossy().into_owned();
+                            match e.metadata() {
+                                Ok(m) if m.is_dir() => {
+                                    listing.push(format!("{rel}/"));
+                                    stack.push(p);
+                                }
+                                Ok(m) => listing.push(format!("{rel}:{}", m.len())),
+                                Err(_) => listing.push(format!("{rel}:?")),
+                            }
+                        }
+                    }
+                }
+                listing.sort();
+                let _ = std::fs::remove_dir_all(&dir);
+                format!("extract -> {:?}; created {listing:?}", r)
+            }
             Op::FailNext(k) => match &self.ctl {
                 Some(c) => {
                     c.fail_at.set(Some(c.calls.get() + k));
@@ -286,6 +327,44 @@ pub fn archive_layout(seed: u64, layout: u8) -> (Vec<u8>, Vec<String>) {
     (bytes, names)
 }
 
+/// A second archive for what the first cannot show: the same name twice (lookups by name go to the later record), an absent
+/// name (index 6 of `names`), and a ZipCrypto entry in the middle at which extract() - which has no password - stops.
+pub fn archive_dup(seed: u64) -> (Vec<u8>, Vec<String>) {
+    use crate::reference::zipbuild::{build, ESpec, Enc, Spec};
+    let e = |name: &str, method: u16, content: Vec<u8>| ESpec { name: name.as_bytes().to_vec(), method, content, made_by: (3 << 8) | 20, ext_attr: 0o100644 << 16, ..Default::default() };
+    let spec = Spec {
+        entries: vec![
+            e("a", 0, b"first entry".to_vec()),
+            e("dup", 8, content_class(3, seed ^ 5)),
+            e("sub/b", 0, b"entry in a directory".to_vec()),
+            e("dup", 0, b"the later record of the same name".to_vec()),
+            ESpec { enc: Enc::ZipCrypto { pw: PW.to_vec(), infozip: false }, ..e("locked", 8, content_class(3, seed ^ 6)) },
+            e("c", 8, content_class(3, seed ^ 7)),
+        ],
+        ..Default::default()
+    };
+    let mut names: Vec<String> = spec.entries.iter().map(|x| String::from_utf8_lossy(&x.name).into_owned()).collect();
+    names.push("no such entry".into());
+    (build(&spec).0, names)
+}
+
+pub fn scripts_dup() -> Vec<Vec<Op>> {
+    use Op::*;
+    vec![
+        vec![ByName(6), ByName(1), ReadToEnd, Meta],
+        vec![ByName(1), ReadToEnd, ByName(3), Meta],
+        vec![ByName(2), ByName(1), Read(5), Close],
+        vec![Names, ByName(1), Meta, ByName(5)],
+        vec![Extract, Open(0), ReadToEnd, Extract],
+        vec![Open(1), Read(5), Extract, Meta],
+        vec![ByName(5), ReadToEnd, Extract, Names],
+        vec![Open(3), ReadToEnd, ByName(6), ByName(3)],
+    ]
+}
+
+/// layout number under which replay files name the second archive and script set
+pub const LAYOUT_DUP: u8 = 100;
+
 /// All interleavings of k sequences with the given lengths, as lists of handle indices.
 fn interleavings(lens: &[usize]) -> Vec<Vec<u8>> {
     fn rec(left: &mut Vec<usize>, cur: &mut Vec<u8>, out: &mut Vec<Vec<u8>>) {
@@ -369,8 +448,8 @@ thread_local! {
 fn replay(case: &Value, st: &mut Stats, seed: u64) {
     let layout = case["layout"].as_u64().unwrap_or(0) as u8;
     LAYOUT.with(|l| l.set(layout));
-    let (bytes, names) = archive_layout(seed, layout);
-    let all = scripts();
+    let (bytes, names) = if layout == LAYOUT_DUP { archive_dup(seed) } else { archive_layout(seed, layout) };
+    let all = if layout == LAYOUT_DUP { scripts_dup() } else { scripts() };
     let ids: Vec<usize> = case["scripts"].as_array().map(|a| a.iter().map(|x| x.as_u64().unwrap_or(0) as usize).collect()).unwrap_or_default();
     let il: Vec<u8> = case["interleaving"].as_array().map(|a| a.iter().map(|x| x.as_u64().unwrap_or(0) as u8).collect()).unwrap_or_default();
     let scr: Vec<&Vec<Op>> = ids.iter().map(|i| &all[*i]).collect();
@@ -451,6 +530,41 @@ pub fn run(args: &Args) -> i32 {
         check_tuple(bytes_r, names_r, &[&all_r[a], &all_r[b], &all_r[c]], il3_r, &[&solos_r[a], &solos_r[b], &solos_r[c]], st, (1 << 60) | (t as u64) << 32, &[a, b, c]);
     });
     ctx.stats.merge(s);
+    // the second archive (a name twice, an absent name, an entry extract() stops at) under its own scripts: every ordered pair,
+    // every interleaving; thorough: every ordered triple over five of them
+    {
+        let (bytes2, names2) = archive_dup(seed);
+        let all2 = scripts_dup();
+        let n2 = all2.len();
+        let solos2: Vec<Vec<String>> = all2.iter().map(|s| alone(&bytes2, s, &names2)).collect();
+        for (i, s) in all2.iter().enumerate() {
+            if alone(&bytes2, s, &names2) != solos2[i] {
+                ctx.machinery(format!("second-archive script {i} is not deterministic when run alone"));
+            }
+            ctx.determinism_reruns += 1;
+        }
+        let (b2, nm2, a2, so2) = (&bytes2, &names2, &all2, &solos2);
+        let s = par_for((n2 * n2) as u64, 1, |t, st| {
+            LAYOUT.with(|l| l.set(LAYOUT_DUP));
+            let (a, b) = ((t as usize) / n2, (t as usize) % n2);
+            check_tuple(b2, nm2, &[&a2[a], &a2[b]], il2_r, &[&so2[a], &so2[b]], st, (3 << 60) | t << 32, &[a, b]);
+            LAYOUT.with(|l| l.set(0));
+        });
+        ctx.stats.merge(s);
+        if thorough {
+            let ids3 = [0usize, 1, 3, 4, 6];
+            let m3 = ids3.len();
+            let s = par_for((m3 * m3 * m3) as u64, 1, |t, st| {
+                LAYOUT.with(|l| l.set(LAYOUT_DUP));
+                let t = t as usize;
+                let (a, b, c) = (ids3[t / (m3 * m3)], ids3[(t / m3) % m3], ids3[t % m3]);
+                check_tuple(b2, nm2, &[&a2[a], &a2[b], &a2[c]], il3_r, &[&so2[a], &so2[b], &so2[c]], st, (3 << 60) | (1 << 59) | (t as u64) << 32, &[a, b, c]);
+                LAYOUT.with(|l| l.set(0));
+            });
+            ctx.stats.merge(s);
+        }
+        ctx.bound("second_archive", json!({"entries": names2, "scripts": all2.iter().map(|s| format!("{s:?}")).collect::<Vec<_>>(), "tuples": "all ordered pairs x all 70 interleavings; thorough: all ordered triples over 5 scripts x all 34650 interleavings", "operations_added": ["file_names()", "extract() into the handle's own scratch directory (stops at the ZipCrypto entry)", "by_name of a name recorded twice", "by_name of an absent name"]}));
+    }
     // Clone::clone_from: a handle whose own reader has died is refreshed from a live handle of the same archive (and of another
     // archive): afterwards it is a clone like any other - its reader is the source's, cloned
     {
